@@ -57,7 +57,14 @@ def confirm(src, sid, slot="0"):
         rc1, out1b = sh("timeout 300 cargo run --offline -q --example seeded_demo >/dev/null 2>&1; echo rc=$?", cwd=wt, env=env)
         log["demo_with_change"] = out1b.strip()
         with_fails = "rc=0" not in out1b
-        sh(["git", "apply", "-R", "--whitespace=nowarn", patch], cwd=wt)
+        rcr, outr = sh(["git", "apply", "-R", "--whitespace=nowarn", patch], cwd=wt)
+        if rcr != 0:
+            return False, {"error": "patch applied only by 3-way merge and cannot be reversed: re-base it first", "log": log}
+        import time as _t
+        _t.sleep(1.1)
+        for line in open(patch):
+            if line.startswith("+++ b/"):
+                sh(["touch", line[6:].strip()], cwd=wt)
         rc2, out2b = sh("timeout 300 cargo run --offline -q --example seeded_demo >/dev/null 2>&1; echo rc=$?", cwd=wt, env=env)
         log["demo_without_change"] = out2b.strip()
         without_passes = "rc=0" in out2b
